@@ -6,9 +6,11 @@
    matrix (variant -> exit 0 / 1 / 2) goes into the evidence.  A surviving variant is an equivalent edit, an edit outside
    the property's scope, or a gap of the rules: survivors are listed so that they can be triaged; they do not change
    the verdict on the tree.
-2. Regression of confirmed breaks: every seeded change under /verif/seeded whose meta.json names this property (or lists
-   it under also_breaks) is applied to a scratch copy and must end in a VIOLATION.  A confirmed break that is no longer
-   reported means the checker is broken: the run ends with exit 2 (never a pass).
+2. Regression of confirmed breaks: every seeded change under /verif/seeded that this property's check is on record as
+   reporting (meta.json `caught_by`, written by `tools/seeded.py --all-props --record`) is applied to a scratch copy and
+   must still end in a VIOLATION.  A confirmed break that is no longer reported means the checker is broken: the run
+   ends with exit 2 (never a pass).  Changes not yet triaged and changes recorded as outside the technique
+   (`static_miss`) are not in the set.
 
 VERIF_SEED only selects which variants are sampled when a file yields more than the budget.
 """
@@ -200,9 +202,10 @@ def _seeded_for(prop: str) -> List[str]:
             continue
         if meta.get('expected') == 'exit0':
             continue
-        if meta.get('property') == prop or prop in meta.get('also_breaks', []):
-            if meta.get('static_miss_ok', {}).get(prop) or (meta.get('static_miss') and meta.get('property') == prop):
-                continue
+        # regression set = changes this property's check is on record as reporting (`caught_by`, written by
+        # `tools/seeded.py --all-props --record` after a triaged run); a change that was collected but not yet triaged, or
+        # that is recorded as outside the technique (`static_miss`), is not part of it
+        if prop in meta.get('caught_by', []):
             out.append(sid)
     return out
 
